@@ -99,6 +99,24 @@ func VerifC23Migrate(h *verifrt.H) {
 		room = h.Len("roomBeforeFull", 0, h.Param("maxRoom", 24)) * h.Param("roomStep", 8)
 		h.DiskLimit(hyd, room)
 	}
+	if h.Param("rerun", 1) == 1 && corrupt < 0 && room < 0 && len(recs) > 0 && h.Bool("staleHydFromEarlierRun") {
+		// a .hyd left by an earlier migration run (without DeleteOld), after which the legacy engine
+		// kept writing: same swamp name, every legacy key present, but with OLDER versions
+		name := ""
+		if withName {
+			name = "s/w/n"
+		}
+		sw, serr := v2.NewFileWriterWithName(hyd, 64, name)
+		h.Assert(serr == nil, "stale-open")
+		seen := map[string]bool{}
+		for _, r := range recs {
+			if !seen[r.key] {
+				seen[r.key] = true
+				h.Assert(sw.WriteEntry(v2.Entry{Operation: v2.OpInsert, Key: r.key, Data: c23segment(h, r.key, 1000+r.ver)}) == nil, "stale-write")
+			}
+		}
+		h.Assert(sw.Close() == nil, "stale-close")
+	}
 	m.migrateSwamp(folder)
 	if room >= 0 {
 		h.DiskClear(hyd)
